@@ -191,6 +191,18 @@ CHECKS = {
     design_ref="DESIGN.md section 5, C10",
     note="Trusted: names are plain text; showkey=/before=/after= not passed; values opaque in the model; the re-parse clause is testing. No axioms.",
     technique="Coq proof (invariant by induction over operation sequences on the parameter list) + model/implementation correspondence + re-parse oracle"),
+ "C08": dict(
+    category="proof",
+    text="Theorems (Coq, any node type, at the level of the node list that holds the target): for a node target found at position |P| "
+         "(L = P ++ x :: Q, x not in P) remove / replace / insert_before / insert_after yield exactly P ++ Q / P ++ new ++ Q / "
+         "P ++ new ++ x :: Q / P ++ x :: new ++ Q, so all other nodes keep identity and order; a target that is not found gives "
+         "ValueError (nothing changed); insert(index) puts the value's nodes IN ORDER at the position list.insert would use for any "
+         "index; append adds at the end; any rendering distributes over the pieces, so exactly the target's span of text changes. "
+         "The list-level model is the one tied to /repo in C11. The lift through enclosing nodes and string targets are checked by an "
+         "oracle on parsed trees (targets at any depth located by identity, equal-text nodes, foreign nodes, indices, strings).",
+    design_ref="DESIGN.md section 5, C08",
+    note="Trusted: as C11/C13; the nested lift (each child Wikicode is rendered verbatim once) and string targets are testing. No axioms.",
+    technique="Coq proof (list decomposition at the found index, induction over the inserted nodes) + edit oracle on parsed trees"),
 }
 
 NOT_YET = {}
